@@ -8,6 +8,7 @@ from ..gens import (EPS, OPTIONS, STOCKS, build_derivative, build_primary, build
 
 PROPERTY_ID = "C03"
 ASSUMPTIONS = [
+    "single steps i in [0, T) and counted from the end, i in [-T, 0) (running-maximum features and Barrier: [-T, -1), they raise IndexError for -1)",
     "feature get(i) vs get(None)[:, [i]]: 4 eps relative (vectorised and scalar kernels may differ in the last bits); "
     "time_to_maturity 4 eps * maturity absolute; ModuleOutput(Linear) 64 eps * (|W||x|+|b|)",
     "batched vs stepwise hedge: 64 eps * max(1,|hedge|); P&L and loss tolerances propagated from it",
@@ -92,8 +93,10 @@ def check_features(case, ctx):
             if rnd > 0:
                 # single steps need not be asked in the hedger's order: skip forward (0, 2, 4, ...), then come back (1, 3, ...)
                 idxs = list(range(0, Tn, 2)) + list(range(1, Tn, 2))
-            if name in ("time_to_maturity", "expiry_time"):
-                idxs += list(range(-Tn, 0))
+            # steps counted from the end, where the feature accepts them (the running-maximum features and Barrier raise
+            # IndexError for -1 on the reference tree; every other negative index is accepted by every feature)
+            path_stat = name.startswith("max_") or name.startswith("Barrier")
+            idxs += list(range(-Tn, -1 if path_stat else 0))
             for i in idxs:
                 with ctx.sut("C03/feature/" + name):
                     one = f.get(i)
